@@ -765,4 +765,16 @@ instance : PEq OpKind := ⟨fun a b => a == b⟩
 /-- `Iterator::filter_map` (an iterator is the list of its items) -/
 def filter_map (l : List α) (f : α → Option β) : List β := l.filterMap f
 
+/-! ### phase 7 (`Display::fmt`) -/
+/-- `for x in xs { body }` in a body without early exit: the left fold of the body over the loop state -/
+def foldFor (l : List α) (init : σ) (f : α → σ → σ) : σ :=
+  match l with
+  | [] => init
+  | a :: l => foldFor l (f a init) f
+/-- termination measure of the recursive `Display::fmt` over `Value` (a proved fact, used by the generated `decreasing_by`) -/
+theorem value_lt {v : Value} {t : List Value} (h : v ∈ t) : sizeOf v < sizeOf (Value.tuple t) := by
+  have := List.sizeOf_lt_of_mem h
+  simp
+  omega
+
 end Evalexpr.Rs
